@@ -111,6 +111,65 @@ def compile_run(ctx, want):
     return violations, cov
 
 
+def roles_run(ctx):
+    """C09: role / multiplicity columns of generated programs, real vs model, + balance oracle."""
+    tier, seed, work = ctx["tier"], ctx["seed"], ctx["work"]
+    if ctx.get("replay"):
+        rp = json.load(open(ctx["replay"]))
+        os.makedirs(f"{work}/replay_corpus", exist_ok=True)
+        json.dump(rp.get("replay", rp), open(f"{work}/replay_corpus/r.json", "w"))
+        runs = [dict(programs=0, max_calls=10, corpus=f"{work}/replay_corpus")]
+    elif tier == "quick":
+        runs = [dict(programs=5000, max_calls=30, corpus=f"{ctx['root']}/corpus/compile"),
+                dict(programs=400, max_calls=150, corpus=f"{ctx['root']}/corpus/roles")]
+    else:
+        runs = [dict(programs=100000, max_calls=30, corpus=f"{ctx['root']}/corpus/compile"),
+                dict(programs=10000, max_calls=150, corpus=f"{ctx['root']}/corpus/roles"),
+                dict(programs=1000, max_calls=500, corpus=None)]
+    violations, hist, samples = [], {}, []
+    programs = distinct = disagreements = blocks = 0
+    for n, r in enumerate(runs):
+        out = f"{work}/run{n}"
+        cmd = [ctx["harness"], "roles", "--seed", str(seed + 1000 * n), "--programs", str(r["programs"]),
+               "--max-calls", str(r["max_calls"]), "--out", out]
+        if r["corpus"]:
+            cmd += ["--corpus", r["corpus"]]
+        rc, o = ctx["sh"](cmd, timeout=7200)
+        if rc != 0:
+            violations.append({"class": "harness-crash", "what": f"harness roles exited {rc}: {o[-300:]}",
+                               "replay": {"cmd": cmd}, "no_input": True})
+            continue
+        rep = json.load(open(f"{out}/roles.report.json"))
+        programs += rep["programs"]; distinct += rep["distinct_programs"]
+        for k, v in rep["hist"].items():
+            hist[k] = hist.get(k, 0) + v
+        samples += rep["samples"][:1]
+        for v in rep["violations"]:
+            violations.append({"class": v["class"], "what": f"{v['kind']} {json.dumps(v.get('detail', {}))[:200]}",
+                               "replay": v["replay"]})
+        run_driver(ctx, f"{out}/roles.cases", f"{out}/roles.model.full")
+        keep = ("prog ", "prep", "pc ", "pp ", "pa ", "reads ", "cmult ", "pmult ", "net ")
+        with open(f"{out}/roles.model", "w") as fh:
+            for l in read_lines(f"{out}/roles.model.full"):
+                if l.startswith(keep) or l in ("pc", "pp", "cmult", "pmult", "reads", "net", "build err"):
+                    fh.write(l + "\n")
+        diffs, nb = diff_blocks(f"{out}/roles.impl", f"{out}/roles.model", f"{out}/roles.cases")
+        blocks += nb
+        disagreements += len(diffs)
+        for (k, first, case) in diffs[:3]:
+            violations.append({"class": "model-disagreement",
+                               "what": f"correspondence roles-model (L5) no longer checks: impl={first[0]!r} model={first[1]!r}",
+                               "replay": {"correspondence": "generate_preprocessed_columns + common.rs conversion vs lean/P3R/Model/Roles",
+                                          "case_block": case, "first_difference": first},
+                               "no_input": True})
+    cov = {"evaluations": programs, "programs": programs, "distinct_nontrivial": distinct,
+           "rule": "random builder programs (as C02) compiled by the real builder; every preprocessed role / multiplicity "
+                   "cell and the per-slot net multiplicity compared with the Lean model; distinct = distinct program texts",
+           "samples": samples[:2], "input_distribution": hist,
+           "traces_validated_against_impl": blocks, "disagreements_checked": disagreements}
+    return violations, cov
+
+
 CHECKS = {
     "C02": {
         "lean_modules": ["P3R.Props.C02"],
@@ -119,6 +178,14 @@ CHECKS = {
         "run": lambda ctx: compile_run(ctx, "C02"),
         "trusted_base": ["executable prime-field instances PF p of the driver (validated against p3-field by the runs)"],
         "assumptions": ["zero divisors: no guarantee is checked when some divisor evaluates to 0 (as the property states)"],
+    },
+    "C09": {
+        "lean_modules": ["P3R.Props.C09"],
+        "theorems": ["P3R.C09.one_creator", "P3R.C09.mult_eq_reads", "P3R.C09.created_iff_defined",
+                     "P3R.C09.net_zero_iff", "P3R.C09.bus_balanced"],
+        "run": roles_run,
+        "trusted_base": ["table-backed non-primitive ops (Poseidon, recompose) are outside the role model: their preprocess hooks are not modelled"],
+        "assumptions": ["extension degree D and lane count do not enter the role logic (indices are scaled by D, lanes only reshape rows); runs use D=1, lanes 1..3"],
     },
     "C03": {
         "lean_modules": ["P3R.Props.C03"],
